@@ -2,6 +2,7 @@ import Resolvo.MDet.Checked
 import Resolvo.Abs.Fail
 import Resolvo.Abs.Preferred
 import Resolvo.Abs.BestDirect
+import Resolvo.RenderTruth
 import Resolvo.Props.C05
 namespace Resolvo.MDet
 open Resolvo Resolvo.Abs
@@ -17,7 +18,13 @@ theorem checkOutcome_ok (U : Universe) (P : Problem) (o : Outcome) (h : List Ev)
     simp only [] at hc
     cases hr : runOptD U P (absEvents h) with
     | none => rw [hr] at hc; cases hc
-    | some st => rw [hr] at hc; simp only [] at hc; split at hc <;> cases hc
+    | some st =>
+      rw [hr] at hc; simp only [] at hc
+      split at hc
+      · cases hc
+      · split at hc
+        · cases hc
+        · split at hc <;> cases hc
   | ok s0 =>
     simp only [] at hc
     cases hr : runOptD U P (absEvents h) with
@@ -40,7 +47,8 @@ theorem checkOutcome_ok (U : Universe) (P : Problem) (o : Outcome) (h : List Ev)
 
 theorem checkOutcome_unsat (U : Universe) (P : Problem) (o : Outcome) (h : List Ev) (c : List Nat)
     (hc : checkOutcome U P o h = .unsat c) :
-    ∃ st, runOpt U P (absEvents h) = some st ∧ st.failed.isSome = true := by
+    ∃ st, runOpt U P (absEvents h) = some st ∧ st.failed.isSome = true ∧ (∀ id ∈ c, id < st.db.length) ∧
+      graphSelfContainedB (conflictGraphOf U st c) = true := by
   unfold checkOutcome at hc
   cases o with
   | stop w => cases hc
@@ -63,8 +71,23 @@ theorem checkOutcome_unsat (U : Universe) (P : Problem) (o : Outcome) (h : List 
       rw [hr] at hc
       simp only [] at hc
       split at hc
-      · next hf => exact ⟨st, runOptD_runOpt U P _ {} st hr, hf⟩
       · cases hc
+      · next hf =>
+        split at hc
+        · cases hc
+        · next hids =>
+          split at hc
+          · cases hc
+          · next hg =>
+            cases hc
+            refine ⟨st, runOptD_runOpt U P _ {} st hr, ?_, ?_, ?_⟩
+            · cases hfs : st.failed with
+              | none => rw [hfs] at hf; simp at hf
+              | some x => rfl
+            · intro id hid
+              have : (c.all fun id => Decidable.decide (id < st.db.length)) = true := by simpa using hids
+              simpa using List.all_eq_true.mp this id hid
+            · simpa using hg
 
 /-- **C01 for the checked model**: every solution it returns is valid (full statement, with the
     soft exemption) — for all universes, problems, cancellation plans, cache states and fuel. -/
@@ -86,7 +109,7 @@ theorem solveChecked_unsat_sound (U : Universe) (P : Problem) (fuel : Nat) (s : 
     (h : (solveChecked U P fuel s).1 = .unsat c) : ¬ Solvable U P := by
   unfold solveChecked at h
   simp only [] at h
-  obtain ⟨st, hr, hf⟩ := checkOutcome_unsat U P _ _ c h
+  obtain ⟨st, hr, hf, _, _⟩ := checkOutcome_unsat U P _ _ c h
   exact fail_sound U P _ st hr hf
 
 /-- **C14(a) for the checked model**: soft requirements never turn a solvable problem into an error. -/
@@ -129,5 +152,24 @@ theorem solveChecked_best_direct (U : Universe) (P : Problem) (fuel : Nat) (s : 
   have he : exemptOf P sol = [] := by simp [exemptOf, hsoft]
   rw [he] at hv
   exact best_direct U P hsoft sstar hb _ st hrun sol hsol ((validB_iff U P sol []).mp hv)
+
+/-- **C03 for the checked model**: an Unsolvable answer comes with a conflict graph (the exact model of `Conflict::graph`
+    applied to the blamed clauses of the accepted history) in which every edge states a true fact of the provider's data,
+    every node is reachable from the root, and the facts shown in the graph alone — with one-solvable-per-package for the
+    nodes joined by forbid edges — admit no selection that installs the root. -/
+theorem solveChecked_unsat_graph (U : Universe) (P : Problem) (fuel : Nat) (s : S) (c : List Nat)
+    (h : (solveChecked U P fuel s).1 = .unsat c) :
+    ∃ st, runOpt U P (absEvents (solveRun U P fuel { s with trace := [] }).2.trace.reverse) = some st ∧
+      (∀ x ∈ Resolvo.Render.nodeEdges (conflictGraphOf U st c), Resolvo.Render.EdgeTrue U P x.1 x.2.1 x.2.2) ∧
+      Resolvo.Graph.reachableB (graphEdges (conflictGraphOf U st c)) (conflictGraphOf U st c).nodes.toList = true ∧
+      ¬ ∃ a, Resolvo.Sat.evalCnf a (Resolvo.Graph.cnfOfGraph (graphEdges (conflictGraphOf U st c))) = true := by
+  unfold solveChecked at h
+  simp only [] at h
+  obtain ⟨st, hr, _, hids, hg⟩ := checkOutcome_unsat U P _ _ c h
+  unfold graphSelfContainedB at hg
+  simp only [Bool.and_eq_true] at hg
+  obtain ⟨_, hsi⟩ := run_inv U P _ {} st ⟨linv_init, sinv_init U P⟩ hr
+  exact ⟨st, hr, Resolvo.Render.buildGraph_edges_true U P st hsi c hids, hg.1,
+    (Resolvo.Graph.graphRefutes_iff _).mp hg.2⟩
 
 end Resolvo.MDet
